@@ -18,8 +18,8 @@ PARTIAL = [
     "an AST pattern match (tools/gen/WriteSets.py), not a semantics of C++: writes through aliases or shapes the matcher does "
     "not understand make the translator fail (TranslateError = broken tie), they are not proved absent",
     "the user's callback is user code: what it does to the circuit (the setters refuse while isInUse_ is set — C10) is outside the table",
-    "DetailedPlacer::place with a callback that throws at invocation 0 (inside DetailedPlacer::legalize) and stages whose twin "
-    "throws (infeasible legalization) are not tied to the model (counted stage:twin_*); the snapshot oracle covers them",
+    "stages whose twin throws (infeasible legalization) are not tied to the model (counted stage:twin_*_twin_throws); the snapshot "
+    "oracle covers them",
     "the float/double arithmetic of GlobalPlacer::exportPlacement is modelled exactly over Rat (blend: every binary32 operation "
     "rounded to nearest-even; export: exact subtraction, round half away); cases where the double subtraction x - 0.5*w "
     "is inexact would be skipped from the correspondence (counted twin_G_inexact / blend_inexact_subtraction; none occurs in the "
